@@ -9,6 +9,36 @@ import numpy as np
 from hypnotoad.core.equilibrium import Equilibrium
 
 
+def sweep(eq, c, n, lower, upper, D):
+    """largest movement of any face between neighbouring end-gradient ratios, per unit of ln(ratio), over ratio = 1/4 .. 4 in steps of 1 %;
+    form: which end gradients are given (lower, upper, both equal, both with the lower one fixed at half the uniform spacing)"""
+    rec = dict(c)
+    rec.update(ok=0, maxslope=0, at=0.0)
+    step = 1.01
+    r = 0.25
+    prev = None
+    worst, at = 0.0, 0.0
+    try:
+        while r <= 4.0:
+            g0 = r * D / n
+            kw = {"lower": dict(grad_lower=g0), "upper": dict(grad_upper=g0), "both": dict(grad_lower=g0, grad_upper=g0),
+                  "bothfixed": dict(grad_lower=0.5 * D / n, grad_upper=g0)}[c["form"]]
+            f = eq.getSmoothMonotonicGridFunc(n, lower, upper, **kw)
+            vals = np.array([float(f(0.5 * k)) for k in range(2 * n + 1)])
+            if prev is not None:
+                sl = float(np.max(np.abs(vals - prev))) / (abs(D) * np.log(step))
+                if sl > worst:
+                    worst, at = sl, r
+            prev = vals
+            r *= step
+        rec["ok"] = 1
+        rec["maxslope"] = int(min(worst * 1000, 2e9))
+        rec["at"] = round(at, 5)
+    except Exception as e:  # noqa
+        rec["exc"] = "%s: %s" % (type(e).__name__, str(e)[:120])
+    return rec
+
+
 def main():
     warnings.simplefilter("ignore")
     with open(sys.argv[1]) as fh:
@@ -24,6 +54,9 @@ def main():
         def g(r):
             return None if r[1] == 0 else (r[0] / r[1]) * D / n
 
+        if c.get("kind") == "sweep":
+            out.append(sweep(eq, c, n, lower, upper, D))
+            continue
         gl, gu = g(c["rl"]), g(c["ru"])
         rec = dict(c)
         rec.update(kind="func", ok=0, vals=[0], steps=[0], ends_exact=0, switch_jump=0, nested_dev=0,
